@@ -1603,11 +1603,10 @@ class Model:
         """
 
         if isinstance(name, str):
-            x0 = inputs[name][pos]
-            name_concat = name
-        else:
-            x0 = np.ravel([inputs[item][pos] for item in name])
-            name_concat = '_'.join(name)
+            name = [name]
+
+        x0 = np.ravel([inputs[item][pos] for item in name])
+        name_concat = '_'.join(name)
 
         rhs = self.calls.ii[name_concat]
         jac = self.calls.ij[name_concat]
